@@ -26,6 +26,10 @@ def extra_checks(ft, tier, seed):
     out.append(harness.standin('standin.merge-content', 'bounded/c05_prepare.py', ["--standin", "-", os.path.join(harness.VERIF, "replays", PROPERTY)],
                                'content of keyword merges (update / update_<a> / with_<a>(v, **kw) / transform): preparers, dict-to-nested-spec, collection preparation - the proofs of mutate_value carry frame and identity clauses only',
                                '8 merges against the single-attribute routes on a class with preparers and a nested spec'))
+    out.append(harness.standin("standin.extra-corpus", "bounded/spec_extra.py", ["--find", PROPERTY, "-", os.path.join(harness.VERIF, "replays", PROPERTY)],
+                               "usages outside the main corpus (tuple-valued attributes, nested updates failing half-way, containers with mutable values, "
+                               "keyed containers handed in whole, update_<attr>() with nothing to apply, chains of cached properties)",
+                               "the hand-written cases of bounded/spec_extra.py registered for this property"))
     for f in FINDINGS:
         r = harness.run_json("bounded/spec.py", ["--finding", f])
         if r.get("reproduces"):
